@@ -403,6 +403,26 @@ func (e *IntEnv) fromGuard(g Guard, v ssa.Value, depth int) Itv {
 	}
 	op := bo.Op
 	var other ssa.Value
+	shift := int64(0) // the guard constrains v + shift
+	// n := int(length) - 9; if n < 0 { … }: a guard on a widened copy of v plus a constant constrains v
+	affineOf := func(x ssa.Value) (int64, bool) {
+		base, c := splitAddConst(x)
+		for i := 0; i < 3; i++ {
+			cv, ok := base.(*ssa.Convert)
+			if !ok || !isInteger(cv.Type()) || !isInteger(cv.X.Type()) || !within(typeRange(cv.X.Type()), typeRange(cv.Type())) {
+				break
+			}
+			b2, c2 := splitAddConst(cv.X)
+			base, c = b2, c+c2
+		}
+		if base != x && (e.same(base, v) || base == v) && isInteger(v.Type()) {
+			// the sum must not wrap in the type it is computed in
+			if tr := typeRange(x.Type()); tr.Lo <= negInf/2 || (typeRange(v.Type()).Lo+c >= tr.Lo && typeRange(v.Type()).Hi+c <= tr.Hi) {
+				return c, true
+			}
+		}
+		return 0, false
+	}
 	switch {
 	case e.same(bo.X, v):
 		other = bo.Y
@@ -420,6 +440,12 @@ func (e *IntEnv) fromGuard(g Guard, v ssa.Value, depth int) Itv {
 			op = token.LEQ
 		}
 	default:
+		if c, ok := affineOf(bo.X); ok {
+			if _, isK := bo.Y.(*ssa.Const); isK {
+				other, shift = bo.Y, c
+				break
+			}
+		}
 		return all
 	}
 	if !isInteger(v.Type()) {
@@ -449,6 +475,9 @@ func (e *IntEnv) fromGuard(g Guard, v ssa.Value, depth int) Itv {
 		gb = g.If.Block()
 	}
 	o := e.at(other, gb, depth+4)
+	if shift != 0 {
+		o = Itv{satAdd(o.Lo, -shift), satAdd(o.Hi, -shift)}
+	}
 	switch op {
 	case token.LSS:
 		return Itv{negInf, satAdd(o.Hi, -1)}
